@@ -5,7 +5,9 @@ from common import (Rng, assumptions, coq_bytes, coq_eval, coq_make, harness_bui
                     run_harness, seed, write_evidence, write_replay, TRUSTED_BASE)
 
 PROP = "C19"
-THEOREMS = ["C19_model_smoke"]
+THEOREMS = ["C19_model_smoke", "C19_invariant_every_interleaving", "C19_no_underflow", "C19_conservation", "C19_exclusive", "C19_mut_unshared",
+            "C19_frozen_bytes_constant", "C19_write_needs_mut", "C19_all_returned", "C19_blocks_only_if_empty", "C19_release_batch",
+            "C19_bucket_choice", "C19_waits_although_buffer_available_refuted"]
 PRELUDE = "From NW Require Import Base.Bytes Model.PoolTok Conf.CodecConf Conf.PoolConf.\n"
 
 
